@@ -494,11 +494,8 @@ fn thread_body(c: &SC, clock: &MockClock, cfg: &Cfg, sh: &Arc<Shared>, me: usize
                 // it executed, nothing can be left in the queues when it returns
                 let g1 = others(sh);
                 let (rq, wq) = c.verif_queue_lens();
-                if g0 == g1 && (rq > 0 || wq > 0) {
-                    Obs::Items(vec![(255, rq as u32), (254, wq as u32)])
-                } else {
-                    Obs::Unit
-                }
+                // (252: did another thread run during the call?)
+                Obs::Items(vec![(255, rq as u32), (254, wq as u32), (252, (g0 != g1) as u32)])
             }
             TOp::Adv(n) => {
                 clock.advance(Duration::from_millis(n as u64 * cfg.tick_ms));
@@ -563,6 +560,9 @@ fn thread_body(c: &SC, clock: &MockClock, cfg: &Cfg, sh: &Arc<Shared>, me: usize
 pub fn run_once(prog: &Program, hasher: &TableHasher, prefix: &[(u16, u16)], max_events: u64) -> Exec {
     tracker().reset();
     let cfg = &prog.cfg;
+    // programs of the "fine" family also schedule at the loads of an entry's shared flags
+    // and weight (hook sp_fine); everywhere else those loads are part of the step around them
+    mini_moka::verif::set_fine(cfg.alpha == "fine");
     let mut sut = Sut::new(cfg, *hasher);
     let mut viol: Vec<Violation> = Vec::new();
     // sequential prelude on this thread (no scheduler installed): exploration
@@ -900,9 +900,34 @@ fn check_history(prog: &Program, all: &[Rec], viol: &mut Vec<Violation>) {
     // an explicit sync() that nobody interleaved with must have drained the queues
     for r in all {
         if let (TOp::Sync, Obs::Items(left)) = (&r.op, &r.obs) {
-            let d = format!("T{}#{} sync() returned with {:?} (255 = reads, 254 = writes) ops still queued although no other thread ran during the call", r.thread, r.idx, left);
-            viol.push(Violation { prop: "C10", sig: "sched:sync-left-ops-queued".into(), detail: d.clone(), witness: String::new() });
-            viol.push(Violation { prop: "C09", sig: "sched:sync-left-ops-queued".into(), detail: d, witness: String::new() });
+            let field = |tag: u8| left.iter().find(|x| x.0 == tag).map(|x| x.1).unwrap_or(0);
+            let (rq, wq, others_ran) = (field(255), field(254), field(252) != 0);
+            if !others_ran && (rq > 0 || wq > 0) {
+                let d = format!("T{}#{} sync() returned with {rq} read and {wq} write ops still queued although no other thread ran during the call", r.thread, r.idx);
+                viol.push(Violation { prop: "C10", sig: "sched:sync-left-ops-queued".into(), detail: d.clone(), witness: String::new() });
+                viol.push(Violation { prop: "C09", sig: "sched:sync-left-ops-queued".into(), detail: d, witness: String::new() });
+            }
+            // sync() is a barrier for everything queued before it was called: it waits for
+            // a pass that is under way and then runs its own, which starts by applying
+            // what the write log holds. Whatever is left when it returns was queued by
+            // calls of other threads that had not returned when it began.
+            let later: u64 = all
+                .iter()
+                .filter(|x| x.thread >= 0 && x.thread != r.thread && !(x.completed && x.end < r.start))
+                .map(|x| match x.op {
+                    TOp::Ins(..) | TOp::Inv(_) => 1,
+                    TOp::Burst(n, _) => n as u64,
+                    _ => 0,
+                })
+                .sum();
+            if others_ran && wq as u64 > later {
+                let d = format!(
+                    "T{}#{} sync() returned with {wq} write ops still queued, but only {later} writes of other threads had not completed before it began: it did not apply what was pending when it was called",
+                    r.thread, r.idx
+                );
+                viol.push(Violation { prop: "C10", sig: "sched:sync-is-not-a-barrier".into(), detail: d.clone(), witness: String::new() });
+                viol.push(Violation { prop: "C09", sig: "sched:sync-is-not-a-barrier".into(), detail: d, witness: String::new() });
+            }
         }
     }
     // values of one writer never go backwards for one reader
@@ -1640,6 +1665,43 @@ pub fn family(name: &str, tier: &str) -> Vec<Program> {
                 c.beyond = false;
                 out.push(Program { cfg: c.clone(), prefix: vec![Op::Ins(0, 1)], threads: vec![vec![TOp::Get(0)], vec![TOp::GBurst(400, 3)]] });
                 out.push(Program { cfg: c.clone(), prefix: vec![Op::Ins(0, 1)], threads: vec![vec![TOp::Ins(1, 1)], vec![TOp::GBurst(400, 2), TOp::Get(0)]] });
+            }
+        }
+        // scheduling also at the loads of an entry's shared flags and weight (written by
+        // inserting threads, read by the maintenance pass): weight-changing updates,
+        // invalidations and lookups of one key beside a pass that is applying earlier
+        // ops of the same key
+        "fine" => {
+            let preludes: Vec<Vec<Op>> = vec![
+                vec![Op::Ins(0, 1)],
+                vec![Op::Ins(0, 1), Op::Sync],
+                vec![Op::Ins(0, 1), Op::Sync, Op::Ins(0, 2)],
+                vec![Op::Ins(0, 1), Op::Ins(1, 2), Op::Sync, Op::Ins(0, 2)],
+                vec![Op::Ins(0, 1), Op::Ins(1, 2), Op::Sync, Op::Get(0), Op::Ins(0, 2)],
+            ];
+            let t1s: Vec<Vec<TOp>> = vec![vec![TOp::Ins(0, 3)], vec![TOp::Inv(0)], vec![TOp::Ins(0, 3), TOp::Inv(0)], vec![TOp::Inv(0), TOp::Ins(0, 3)], vec![TOp::Ins(0, 3), TOp::Ins(0, 1)]];
+            for cap in [None, Some(4u64)] {
+                for pre in &preludes {
+                    for t1 in &t1s {
+                        let mut c = base(cap, None);
+                        c.weigher = true;
+                        c.alpha = "fine".into();
+                        out.push(Program { cfg: c, prefix: pre.clone(), threads: vec![t1.clone(), vec![TOp::Sync]] });
+                    }
+                }
+            }
+            // the purge scans read the dirty flag and the timestamps of an entry a writer
+            // is refreshing
+            for (ttl, tti) in [(Some(2u32), None), (None, Some(2u32))] {
+                for pre in [vec![Op::Ins(0, 1), Op::Sync, Op::Adv(2)], vec![Op::Ins(0, 1), Op::Ins(1, 1), Op::Sync, Op::Adv(2)]] {
+                    for t1 in [vec![TOp::Ins(0, 2)], vec![TOp::Get(0)], vec![TOp::Inv(0), TOp::Ins(0, 2)]] {
+                        let mut c = base(None, tti);
+                        c.ttl = ttl;
+                        c.weigher = true;
+                        c.alpha = "fine".into();
+                        out.push(Program { cfg: c, prefix: pre.clone(), threads: vec![t1.clone(), vec![TOp::Sync]] });
+                    }
+                }
             }
         }
         other => panic!("unknown program family {other}"),
